@@ -49,6 +49,9 @@ pub enum Op {
     /// from val % 3 + 1, rate 10^(6 + 3 (val / 3 % 3)) per whole token per year, 10^12 funded), 1 = user u claims
     /// (withdraw_emissions to its own token account), 2 = anyone settles user u's emissions in bank b
     Emissions { b: u16, u: u16, step: u8, val: u8 },
+    /// what-if probe: the group admin closes bank b on a CLONE of the store (the campaign's world is left
+    /// untouched); the step reports whether the program accepted, C02 judges the consequence clause
+    CloseBank { b: u16 },
 }
 
 impl Op {
@@ -82,6 +85,7 @@ impl Op {
             Op::Freeze { .. } => "freeze",
             Op::Pulse { .. } => "pulse",
             Op::Emissions { .. } => "emissions",
+            Op::CloseBank { .. } => "close_bank",
         }
     }
 }
@@ -108,6 +112,8 @@ pub struct Step {
     pub now: i64,
     /// the account store before the op (cheap persistent clone) for differential probes
     pub pre_vm: Option<Vm>,
+    /// the op ran on a clone of the store only (what-if probe): `ok` is the program's answer, nothing was committed
+    pub probe: bool,
 }
 
 pub struct Runner {
@@ -165,6 +171,7 @@ pub fn op_strategy() -> impl Strategy<Value = Op> {
         1 => (i(), any::<bool>()).prop_map(|(u, on)| Op::Freeze { u, on }),
         1 => i().prop_map(|u| Op::Pulse { u }),
         3 => (i(), i(), prop_oneof![3 => Just(0u8), 2 => Just(1u8), 1 => Just(2u8)], any::<u8>()).prop_map(|(b, u, step, val)| Op::Emissions { b, u, step, val }),
+        2 => i().prop_map(|b| Op::CloseBank { b }),
     ]
 }
 
@@ -302,6 +309,53 @@ pub fn case_strategy(cfg: &GenCfg) -> impl Strategy<Value = (WorldSpec, Vec<Op>)
             p.extend(v);
             p
         }),
+        // wind-down: after a short history everybody repays and withdraws everything, then the admin tries to
+        // close every bank (what-if probes)
+        2 => (prefix_strategy(), prop::collection::vec(op_strategy(), 0..=(max_ops / 3).max(1)), 0u32..100_000).prop_map(|(mut p, v, secs)| {
+            p.extend(v);
+            p.push(Op::Wait { secs });
+            let slots = [0u16, 16384, 32768, 49152];
+            for all_repay in [true, false] {
+                for u in slots {
+                    for b in slots {
+                        if all_repay {
+                            p.push(Op::Repay { u, b, amt: 0, rel: 0, all: true });
+                        } else {
+                            p.push(Op::Withdraw { u, b, amt: 0, rel: 0, all: true });
+                        }
+                    }
+                }
+            }
+            for b in slots {
+                p.push(Op::CloseBank { b });
+            }
+            p
+        }),
+        // inflation: long waits with accruals drive the share values up by orders of magnitude (as far as the
+        // world's curve and utilisation allow), then a wind-down, tiny deposits and close_bank probes
+        1 => (prefix_strategy(), 2usize..7, prop::collection::vec((any::<u16>(), 1u64..2000), 1..4), prop::collection::vec(op_strategy(), 0..6)).prop_map(|(mut p, k, tiny, tail)| {
+            let b0 = match p[0] { Op::Deposit { b, .. } => b, _ => 0 };
+            for _ in 0..k {
+                p.push(Op::Wait { secs: 157_000_000 });
+                p.push(Op::Accrue { b: b0 });
+            }
+            let slots = [0u16, 16384, 32768, 49152];
+            for u in slots {
+                p.push(Op::Repay { u, b: b0, amt: 0, rel: 0, all: true });
+            }
+            for u in slots {
+                p.push(Op::Withdraw { u, b: b0, amt: 0, rel: 0, all: true });
+            }
+            for (u, amt) in tiny {
+                p.push(Op::Deposit { u, b: b0, amt, rel: 0, up: 0 });
+            }
+            p.push(Op::CloseBank { b: b0 & !3 });
+            p.extend(tail);
+            for b in slots {
+                p.push(Op::CloseBank { b });
+            }
+            p
+        }),
     ];
     (world_strategy(cfg), ops)
 }
@@ -411,6 +465,7 @@ impl Runner {
             skip_why: "",
             now: self.w.vm.now(),
             pre_vm: None,
+            probe: false,
         };
         self.steps += 1;
         let mut token_watch: Option<Pubkey> = None;
@@ -780,6 +835,25 @@ impl Runner {
                     }
                 }
             }
+            Op::CloseBank { b } => {
+                let mut bi = idx(*b, nb);
+                if b % 4 != 0 {
+                    // prefer a bank whose totals are (nearly) empty: that is where the program may accept
+                    let c: Vec<usize> = (0..nb).filter(|i| self.snap.banks.get(&self.w.banks[*i].key).map(|x| x.a_bits < (1i128 << 40) && x.l_bits < (1i128 << 40)).unwrap_or(false)).collect();
+                    if !c.is_empty() {
+                        bi = c[idx(*b, c.len())];
+                    }
+                }
+                st.bank = Some(bi);
+                let ix = self.w.ix_close_bank(bi, self.w.roles.admin);
+                let mut vm2 = self.w.vm.clone();
+                let r = vm2.exec_tx(std::slice::from_ref(&ix));
+                st.ixs = vec![ix];
+                st.ok = r.ok;
+                st.err = r.err.as_ref().map(|(i, e)| (*i, err_code(e)));
+                st.probe = true;
+                return st;
+            }
             Op::Transfer { u } => {
                 let ui = idx(*u, nu);
                 let usr = self.w.users[ui].clone();
@@ -1113,7 +1187,8 @@ pub fn decode_case(data: &[u8]) -> (WorldSpec, Vec<Op>) {
                 Op::Flash { u: r.u16(), b: r.u16(), amt, rel, repay: r.bool() }
             }
             29 => Op::Configure { b: r.u16(), kind: r.u8() % 5, val: match r.u8() % 4 { 0 => 0, 1 => 1, 2 => u64::MAX, _ => r.u64() >> (r.u8() % 50) } },
-            30 => match r.u8() % 5 {
+            30 => match r.u8() % 6 {
+                5 => Op::CloseBank { b: r.u16() },
                 4 => Op::Emissions { b: r.u16(), u: r.u16(), step: r.u8() % 3, val: r.u8() },
                 3 => Op::Sunset { b: r.u16(), u: r.u16(), step: r.u8() % 4 },
                 0 => Op::Transfer { u: r.u16() },
